@@ -207,7 +207,7 @@ def make_inputs(chk, tier):
     return cases
 
 
-def run_batch(vapi, cases, workdir, tag, cpu_s):
+def run_batch(vapi, cases, workdir, tag, cpu_s, env_extra=None, as_bytes=AS_BYTES):
     """Run one shard to completion, respawning after every death. Returns (results by id, deaths)."""
     os.makedirs(workdir, exist_ok=True)
     inp = os.path.join(workdir, f"{tag}.in.jsonl")
@@ -223,7 +223,7 @@ def run_batch(vapi, cases, workdir, tag, cpu_s):
     deaths = []
     watchdog = []
     while start < len(cases):
-        r = common.run([vapi, "c13", inp, jr, out, str(start)], env=common.fontc_env(), timeout=max(600, cpu_s * 2), cpu_s=cpu_s, as_bytes=AS_BYTES)
+        r = common.run([vapi, "c13", inp, jr, out, str(start)], env=common.fontc_env(extra=env_extra), timeout=max(600, cpu_s * 2), cpu_s=cpu_s, as_bytes=as_bytes)
         j = open(jr).read().strip() if os.path.exists(jr) else ""
         if j == "done" and r.rc == 0:
             break
@@ -237,6 +237,10 @@ def run_batch(vapi, cases, workdir, tag, cpu_s):
             why = "CPU-time limit" if (r.cpu_limited or r.sig == signal.SIGXCPU) else (f"signal {signal.Signals(r.sig).name}" if r.sig else f"exit {r.rc}")
             if "memory allocation" in r.stderr or "out of memory" in r.stderr.lower():
                 why = "allocation failure under the 2 GiB address-space limit (runaway allocation)"
+            m = re.search(r"ERROR: AddressSanitizer: ([^\n]*)", r.stderr)
+            if m:
+                frame = re.search(r"#\d+ 0x[0-9a-f]+ in (\S+) (/repo/\S+)", r.stderr)
+                why = "AddressSanitizer: " + m.group(1).split(" on address")[0] + (f" in {frame.group(1)} {frame.group(2)}" if frame else "")
             deaths.append((at, why, r.stderr[-200:]))
         start = at + 1
     results = {}
@@ -347,7 +351,11 @@ def run(tier):
                 chk.violation(f"parser:{classify_problem(p, c)}", f"input {c['id']} ({c['kind']}, from {c.get('origin', '-')}): {p}"[:600], replay=c)
             if len(samples) < 5 and c["kind"] in ("mutation", "include-graph", "soup") and info.get("diagnostics"):
                 samples.append({"kind": c["kind"], "text": c["files"]["root.fea"][:200], "diagnostics": info.get("diagnostics"), "tokens": info.get("tokens")})
+    san = {}
+    if tier == "thorough":
+        san = sanitizer_slices(chk, cases, wd)
     chk.coverage.update({
+        "sanitizers": san,
         "distinct_nontrivial": len(nontrivial),
         "rule": "inputs: every fea-rs/test-data file, token-level mutations of them, grammar-generated programs (and their mutations), UTF-8/token soup, "
                 "include graphs (random digraphs, self loops, re-entered cycles, chains of 48-55, missing files), with and without a glyph map whose names "
@@ -357,6 +365,74 @@ def run(tier):
         "samples": samples, **stats,
     })
     return chk.finish()
+
+
+def sanitizer_slices(chk, cases, wd):
+    """The same driver and oracles under AddressSanitizer (a slice of the inputs) and under Miri (short inputs): this
+    is where the repository's `unsafe` code (token_set transmute, the MaybeUninit token stack, glyph_range) runs."""
+    from . import sanitize
+    out = {}
+    rng = chk.rng
+    # ---- AddressSanitizer
+    try:
+        avapi = sanitize.build("asan", bins=("vapi",))["vapi"]
+        pick = rng.sample(cases, min(len(cases), 64000))
+        shards = 16
+        per = (len(pick) + shards - 1) // shards
+        env = {"ASAN_OPTIONS": "halt_on_error=1 abort_on_error=0 detect_leaks=0 allocator_may_return_null=1 max_allocation_size_mb=2048"}
+
+        def work(k):
+            cs = pick[k * per:(k + 1) * per]
+            return cs, run_batch(avapi, cs, wd, f"asan{k}", 3600, env_extra=env, as_bytes=None)
+        n_run = reports = 0
+        for cs, (results, deaths, watchdog) in common.pmap(work, list(range(shards)), workers=shards):
+            n_run += len(results)
+            for at, why, tail in deaths:
+                if at < len(cs) and why.startswith("AddressSanitizer"):
+                    reports += 1
+                    chk.violation("parser:asan:" + re.sub(r"0x[0-9a-f]+|\d+", "N", why)[:100], f"{why} on input {cs[at]['id']} ({cs[at]['kind']})", replay=cs[at])
+                elif at < len(cs):
+                    chk.inconc({"why": f"asan child died without a report: {why}", "input": cs[at]["id"]})
+            for at in watchdog:
+                chk.inconc({"why": "asan watchdog"})
+        out["asan"] = {"status": "ran", "inputs_parsed": n_run, "reports": reports}
+    except common.Inconclusive as e:
+        out["asan"] = {"status": f"not run: {e}"}
+        chk.inconc({"why": "asan flavour could not be built"})
+    # ---- Miri: short inputs only (the interpreter costs ~0.1-1 s per input)
+    small = [c for c in cases if c["kind"] != "include-graph" and sum(len(v) for v in c["files"].values()) < 400]
+    pick = rng.sample(small, min(len(small), 16 * 40))
+    shards = 16
+    per = (len(pick) + shards - 1) // shards
+
+    def mwork(k):
+        cs = pick[k * per:(k + 1) * per]
+        os.makedirs(wd, exist_ok=True)
+        inp, jr, outp = (os.path.join(wd, f"miri{k}.{x}") for x in ("in.jsonl", "journal", "out.jsonl"))
+        with open(inp, "w") as f:
+            for c in cs:
+                f.write(json.dumps(c) + "\n")
+        for p in (jr, outp):
+            if os.path.exists(p):
+                os.remove(p)
+        st, detail = sanitize.miri_run("vapi", ["c13", inp, jr, outp, "0"], seed=k, timeout=3000)
+        done = sum(1 for _ in open(outp)) if os.path.exists(outp) else 0
+        at = open(jr).read().strip() if os.path.exists(jr) else ""
+        return k, cs, st, detail, done, at
+    first = [mwork(0)]  # compiles the harness for Miri once
+    res = first + common.pmap(mwork, list(range(1, shards)), workers=shards)
+    info = {"status": "ran", "inputs_parsed": 0, "ub_reports": 0, "unsupported": 0}
+    for k, cs, st, detail, done, at in res:
+        info["inputs_parsed"] += done
+        if st == "ub":
+            info["ub_reports"] += 1
+            c = cs[int(at)] if at.isdigit() and int(at) < len(cs) else None
+            chk.violation("parser:miri:" + re.sub(r"\d+", "N", detail)[:100], f"Miri: {detail} while parsing input {c['id'] if c else '?'}", replay=c or {})
+        elif st != "ok":
+            info["unsupported"] += 1
+            chk.inconc({"why": f"miri shard {k}: {st}", "detail": detail[:200]})
+    out["miri"] = info
+    return out
 
 
 def replay(path):
